@@ -253,6 +253,10 @@ impl<H: Hasher> BatchMerkleProof<H> {
             return Err(MerkleTreeError::InvalidProof);
         }
 
+        // validate the indexes (distinct and within a tree of this depth) before using them; both
+        // the indexes and the depth may come from an untrusted proof
+        let index_map = super::map_indexes(indexes, self.depth as usize)?;
+
         let mut partial_tree_map = BTreeMap::new();
 
         for (&i, leaf) in indexes.iter().zip(leaves.iter()) {
@@ -264,7 +268,6 @@ impl<H: Hasher> BatchMerkleProof<H> {
 
         // replace odd indexes, offset, and sort in ascending order
         let original_indexes = indexes;
-        let index_map = super::map_indexes(indexes, self.depth as usize)?;
         let indexes = super::normalize_indexes(indexes);
         if indexes.len() != self.nodes.len() {
             return Err(MerkleTreeError::InvalidProof);
@@ -411,7 +414,8 @@ impl<H: Hasher> Deserializable for BatchMerkleProof<H> {
         let depth = source.read_u8()?;
         let num_node_vectors = source.read_usize()?;
 
-        let mut nodes = Vec::with_capacity(num_node_vectors);
+        // `num_node_vectors` is read from untrusted input: do not pre-allocate based on it
+        let mut nodes = Vec::new();
         for _ in 0..num_node_vectors {
             // read the digests and add them to the node vector
             let digests = Vec::<_>::read_from(source)?;
